@@ -80,6 +80,19 @@ def random_masses(rng, shape, kind):
         i, j = rng.randrange(n), rng.randrange(n)
         a1[i] = 3.0
         a2[j] = 3.0
+    elif kind == "near":
+        # two nearly identical distributions on a large common background (consecutive frames of a slow process): a small
+        # amount of mass moved between a few cells, relative difference per cell below 1e-5
+        a1 = np.full(n, 1000.0)
+        a2 = np.full(n, 1000.0)
+        for _ in range(max(1, n // 4)):
+            i, j = rng.randrange(n), rng.randrange(n)
+            if i != j:
+                a1[i] += 0.004
+                a2[j] += 0.004
+        if np.array_equal(a1, a2):
+            a1[0] += 0.004
+            a2[-1] += 0.004
     elif kind == "compact":
         a1 = np.zeros(n)
         a2 = np.zeros(n)
